@@ -114,6 +114,12 @@ overwritten, masked, clipped or selected after the exponential (so `asp_unit_mod
 array the code returns, including the part of the band beyond `1/λ` at sub-wavelength sampling) -/
 theorem gen_asp_every_sample : aspTfAppliedToEverySample = true := by decide
 
+/-- purity (structural): no entry point of the three routes / of free space writes to its array argument — no augmented
+assignment or subscript store on the parameter while it still names the caller's array, no `out=<param>`, no
+`overwrite_x=True` handed to the FFT library (the model routes are pure functions of their input) -/
+theorem gen_inputs_not_written :
+    fttoolsEntryPointsDoNotWriteInputs = true ∧ propagationEntryPointsDoNotWriteInputs = true := by decide
+
 /-! ## orthogonality -/
 
 /-- (re-export of `C01.IsChar.ortho`) root-of-unity orthogonality `Σ_{k<L} e(k·d/L) = L·[L ∣ d]`, derived from the character laws + faithfulness
@@ -223,6 +229,28 @@ theorem band_complete_roundtrip (he : IsChar e) (hf : IsFaithful e) (cj : K →+
   rw [w0, w1, sg, fw, iv, h1, h2, g1, g2, hay, hax, hby, hbx]
   have := mdft2_roundtrip nrm he hf cj hc m n M N hm hn hM hN' _ _ s0 s1 rfl rfl (hN M hM) (hN N hN') f j i hj hi
   simpa only [mdftRoundTripG, mdftRoundTrip, mdft2G, if_true, Bool.false_eq_true, if_false, neg_neg, kernS_neg_one, kernS_one]
+    using this
+
+/-- the other order: `dft2(idft2(f, Q, (M,N), shift), 1, (m,n), shift) = f` — the inverse transform applied FIRST, to the
+caller's own (possibly real-valued) array, is undone by the forward transform, on the same band-complete grid -/
+theorem band_complete_roundtrip_inverse_first (he : IsChar e) (hf : IsFaithful e) (cj : K →+* K) (hc : IsConj cj e nrm)
+    (hN : NrmSq nrm) (m n M N : Nat) (Qy Qx s0 s1 : R) (hQy : (m : R) * Qy = M) (hQx : (n : R) * Qx = N)
+    (hm : m ≤ M) (hn : n ≤ N) (hM : 0 < M) (hN' : 0 < N) (f : Nat → Nat → K) (j i : Nat) (hj : j < m) (hi : i < n) :
+    mdftRoundTripG mdftFwdSign mdftIdft2IsFwd mdftDft2IsFwd mdftEoutWiring mdftEinWiring e nrm (m, n) (M, N)
+        (mdftEoutScale (m : R) (n : R) Qy Qx) (mdftEinScale (m : R) (n : R) Qy Qx)
+        (mdftEoutScale (M : R) (N : R) 1 1) (mdftEinScale (M : R) (N : R) 1 1) (s0, s1) f j i = f j i := by
+  obtain ⟨h1, h2, n1, n2⟩ := gen_mdft_scale (R := R) m n Qy Qx
+  obtain ⟨g1, g2, _, _⟩ := gen_mdft_scale (R := R) M N 1 1
+  obtain ⟨w0, w1, sg, _, fw, iv⟩ := gen_mdft_wiring
+  have hay : alphaOf m Qy = 1 / (M : R) := by rw [alphaOf_eq, hQy]
+  have hax : alphaOf n Qx = 1 / (N : R) := by rw [alphaOf_eq, hQx]
+  have hby : alphaOf M (1 : R) = 1 / (M : R) := by rw [alphaOf_eq, mul_one]
+  have hbx : alphaOf N (1 : R) = 1 / (N : R) := by rw [alphaOf_eq, mul_one]
+  rw [w0, w1, sg, fw, iv, h1, h2, g1, g2, hay, hax, hby, hbx]
+  have := mdft2_roundtrip (e := fun t => e (-t)) nrm he.reflect (isFaithful_reflect hf) cj (isConj_reflect nrm cj hc)
+    m n M N hm hn hM hN' _ _ s0 s1 rfl rfl (hN M hM) (hN N hN') f j i hj hi
+  have hee : (fun t => e (- -t)) = e := by funext t; rw [neg_neg]
+  simpa only [mdftRoundTripG, mdftRoundTrip, mdft2G, if_true, Bool.false_eq_true, if_false, neg_neg, kernS_neg_one, kernS_one, hee]
     using this
 
 /-- `czt2` onto the full band conserves energy as well (the transform exactly as computed, any admissible FFT lengths) -/
